@@ -200,8 +200,8 @@ Lemma next_match_least : forall md d t n0 sod0 horizon n x,
 Proof.
   intros md d t n0 sod0 h n x Hh Hs. unfold next_match, lex_le. cbn [fst snd].
   destruct (has_time t) eqn:Ht.
-  - pose proof (next_sod_spec t sod0 ltac:(lia)) as S0.
-    pose proof (next_sod_spec t 0 ltac:(lia)) as S1.
+  - pose proof (next_sod_spec t sod0 (proj1 Hs)) as S0.
+    pose proof (next_sod_spec t 0 (Z.le_refl 0)) as S1.
     pose proof (next_day_spec md d (n0 + 1) h Hh) as D1.
     revert S0 S1 D1.
     generalize (next_sod t sod0) (next_sod t 0) (next_day md d (n0 + 1) h). intros ns0 ns1 nd1 S0 S1 D1.
@@ -252,8 +252,8 @@ Lemma next_match_intro : forall md d t n0 sod0 h n x,
 Proof.
   intros md d t n0 sod0 h n x Hh Hs Ht L Hn Hx Dm Sm Least. unfold next_match. rewrite Ht.
   unfold lex_le in *. cbn [fst snd] in *.
-  pose proof (next_sod_spec t sod0 ltac:(lia)) as S0.
-  pose proof (next_sod_spec t 0 ltac:(lia)) as S1.
+  pose proof (next_sod_spec t sod0 (proj1 Hs)) as S0.
+  pose proof (next_sod_spec t 0 (Z.le_refl 0)) as S1.
   pose proof (next_day_spec md d (n0 + 1) h Hh) as D1.
   revert S0 S1 D1.
   generalize (next_sod t sod0) (next_sod t 0) (next_day md d (n0 + 1) h). intros ns0 ns1 nd1 S0 S1 D1.
